@@ -95,6 +95,8 @@ def fresh_interpreter_outcomes(case: dict, runs: int = 3) -> List[str]:
 class C02(C01):
     pid = "C02"
     props_module = "CBV.Props.C02"
+    # C02 is about the loop (termination, completeness, order): M-PROP on the schedule as the implementation holds it
+    model_paths = ("prop",)
     modes = [("well", 0.35), ("under", 0.25), ("sandwich", 0.2), ("double", 0.1), ("conflict", 0.1)]
     rule = (
         C01.rule
